@@ -59,7 +59,41 @@ def run(ctx):
                        "response pair with a newer request) - shared with C10 TX-3", floor=1)
     from rules import c10 as _c10
     _c10.check_generator(rep, ctx.prog("default"), "MEAS-9")
+    rep.rule("MEAS-11", "the configured delay asymmetry (documented in nanoseconds) reaches the library as that many "
+                        "nanoseconds (the daemon's configuration conversion)", floor=1)
+    _check_asymmetry_unit(rep, ctx.prog("default"))
     rep.rule("MEAS-10", "the parent the measurement handlers filter on is replaced whenever the BMCA selects another "
                         "PortIdentity (full identity, not only the clock) - shared with C07 NI-6", floor=1)
     from rules import share as _share
     _share.share(ctx, rep, "c07", "NI-6", "MEAS-10")
+
+
+
+def _check_asymmetry_unit(rep, prog):
+    from sa import mir as _mir, dataflow as df
+    n = 0
+    for b in prog.bodies.values():
+        if b.is_test() or not b.unit.name.startswith("statime_linux") and b.unit.name != "statime-bin":
+            continue
+        pv = None
+        for bi, si, st in _mir.iter_stmts(b):
+            if st["k"] == "assign" and st["r"]["k"] == "agg" and st["r"].get("name") == "PortConfig" and \
+                    "delay_asymmetry" in (st["r"].get("fields") or []) and \
+                    str(st["r"].get("path") or "").startswith("statime::") and (b.trait or "").startswith("core::convert"):
+                pv = pv or df.Prov(b)
+                tr = dict(pv.rvalue_tree(st["r"])[3]).get("delay_asymmetry")
+                if tr is None:
+                    continue
+                txt = df.canon(tr, b)
+                if "delay_asymmetry" not in txt:
+                    continue
+                n += 1
+                if txt.startswith("from_nanos("):
+                    rep.ok("MEAS-11", b.key, "delay_asymmetry unit", detail=txt, where="%s:%d" % (b.file, st["sp"][1]))
+                else:
+                    rep.violation("MEAS-11", b.key, "delay_asymmetry unit",
+                                  "the configured delay asymmetry is converted with `%s`; the option is documented in "
+                                  "nanoseconds, so every offset and delay measurement would be corrected by a wrongly scaled "
+                                  "asymmetry" % txt, where="%s:%d" % (b.file, st["sp"][1]))
+    if n == 0:
+        rep.anchor_missing("MEAS-11", "no PortConfig construction with a configured delay_asymmetry found in the daemon")
